@@ -40,20 +40,52 @@ def fn (name : String) (ty : KTy) (lo nullFrom : Nat) : KField := .mk name ty lo
 def fu (name : String) (ty : KTy) (lo : Nat) : KField := .mk name ty lo none none true
 def arr (fs : List KField) : KTy := .array (.struct fs)
 
+/-- ids of the tagged fields that `stripTagged` keeps -/
+def stripIds : List Int → List Ty → List Int
+  | i :: is, t :: ts => if t.zeroSize then stripIds is ts else i :: stripIds is ts
+  | _, _ => []
+
+mutual
 /-- drop the zero-size marker fields (`_ struct{}`) of a resolved tree schema -/
-partial def strip : Ty → Ty
+def strip : Ty → Ty
   | .array c n e => .array c n (strip e)
-  | .struct fl fs ids ts =>
-    let keep := (ids.zip ts).filter fun (_, t) => !t.zeroSize
-    .struct fl ((fs.filter (!·.zeroSize)).map strip) (keep.map (·.1)) (keep.map fun (_, t) => strip t)
+  | .struct fl fs ids ts => .struct fl (stripList fs) (stripIds ids ts) (stripTagged ts)
   | t => t
+def stripList : List Ty → List Ty
+  | [] => []
+  | t :: ts => if t.zeroSize then stripList ts else strip t :: stripList ts
+def stripTagged : List Ty → List Ty
+  | [] => []
+  | t :: ts => if t.zeroSize then stripTagged ts else strip t :: stripTagged ts
+end
+
+mutual
+/-- the same schema with every STRING made non-nullable.  A nullable string field may always carry a non-null
+string; the hand-written Conn codec writes every string non-null (an empty Go string as length 0, where the
+reflection codec writes null): its encoding is the reference encoding under `denull` of the golden schema. -/
+def denull : Ty → Ty
+  | .string c _ => .string c false
+  | .array c n e => .array c n (denull e)
+  | .struct f fs ids ts => .struct f (denullList fs) ids (denullList ts)
+  | t => t
+def denullList : List Ty → List Ty
+  | [] => []
+  | t :: ts => denull t :: denullList ts
+end
 
 def hintNullable : Option Ty → Bool
   | some (.string _ n) | some (.bytes _ n) | some (.array _ n _) => n
   | _ => false
 
+def KField.live (v : Nat) : KField → Bool
+  | .mk _ _ lo hi _ _ => lo ≤ v && (match hi with | some h => v ≤ h | none => true)
+
+def liveCount (v : Nat) : List KField → Nat
+  | [] => 0
+  | f :: fs => (if f.live v then 1 else 0) + liveCount v fs
+
 mutual
-partial def kResolve (flex : Bool) (v : Nat) (nullable : Bool) (hint : Option Ty) (unsure : Bool) : KTy → Ty
+def kResolve (flex : Bool) (v : Nat) (nullable : Bool) (hint : Option Ty) (unsure : Bool) : KTy → Ty
   | .bool => .bool | .int8 => .int8 | .int16 => .int16 | .int32 => .int32 | .int64 => .int64
   | .float64 => .float64
   | .string => .string flex nullable
@@ -63,15 +95,20 @@ partial def kResolve (flex : Bool) (v : Nat) (nullable : Bool) (hint : Option Ty
     let eh := match hint with | some (.array _ _ h) => some h | _ => none
     .array flex nullable (kResolve flex v (unsure && hintNullable eh) eh unsure e)
   | .struct fs =>
-    let live := fs.filter fun | .mk _ _ lo hi _ _ => lo ≤ v && (match hi with | some h => v ≤ h | none => true)
+    let n := liveCount v fs
     let hints : List (Option Ty) := match hint with
-      | some (.struct _ hs _ _) => if hs.length == live.length then hs.map some else live.map fun _ => none
-      | _ => live.map fun _ => none
-    .struct flex ((live.zip hints).map fun (fld, h) => kResolveField flex v h fld) [] []
-partial def kResolveField (flex : Bool) (v : Nat) (hint : Option Ty) : KField → Ty
-  | .mk _ ty _ _ nullFrom unsure =>
-    let nullable := if unsure then hintNullable hint else match nullFrom with | some n => n ≤ v | none => false
-    kResolve flex v nullable hint unsure ty
+      | some (.struct _ hs _ _) => if hs.length == n then hs.map some else List.replicate n none
+      | _ => List.replicate n none
+    .struct flex (kResolveFields flex v hints fs) [] []
+/-- the live fields in order; `hints` is aligned with the live fields -/
+def kResolveFields (flex : Bool) (v : Nat) : List (Option Ty) → List KField → List Ty
+  | _, [] => []
+  | hints, (.mk name ty lo hi nullFrom unsure) :: rest =>
+    if (KField.mk name ty lo hi nullFrom unsure).live v then
+      let hint := hints.headD none
+      let nullable := if unsure then hintNullable hint else match nullFrom with | some n => n ≤ v | none => false
+      kResolve flex v nullable hint unsure ty :: kResolveFields flex v hints.tail rest
+    else kResolveFields flex v hints rest
 end
 
 /-! ### the table -/
@@ -218,11 +255,53 @@ def golden : List KMsg := [
       f "TopicNames" (.array .string) 0, f "TimeoutMs" .int32 0] },
   { apiKey := 20, isRequest := false, lo := 0, hi := 3, flexFrom := none, fields := [
       f "ThrottleTimeMs" .int32 1, f "Responses" (arr [f "Name" .string 0, f "ErrorCode" .int16 0]) 0] },
-  -- InitProducerId (22) v0–v1 (v2+ flexible: unaudited)
-  { apiKey := 22, isRequest := true, lo := 0, hi := 1, flexFrom := none, fields := [
-      fn "TransactionalId" .string 0 0, f "TransactionTimeoutMs" .int32 0] },
-  { apiKey := 22, isRequest := false, lo := 0, hi := 1, flexFrom := none, fields := [
+  -- InitProducerId (22) v0–v4
+  { apiKey := 22, isRequest := true, lo := 0, hi := 4, flexFrom := some 2, fields := [
+      fn "TransactionalId" .string 0 0, f "TransactionTimeoutMs" .int32 0,
+      f "ProducerId" .int64 3, f "ProducerEpoch" .int16 3] },
+  { apiKey := 22, isRequest := false, lo := 0, hi := 4, flexFrom := some 2, fields := [
       f "ThrottleTimeMs" .int32 0, f "ErrorCode" .int16 0, f "ProducerId" .int64 0, f "ProducerEpoch" .int16 0] },
+  -- DescribeGroups (15) v0–v5
+  { apiKey := 15, isRequest := true, lo := 0, hi := 5, flexFrom := some 5, fields := [
+      f "Groups" (.array .string) 0, f "IncludeAuthorizedOperations" .bool 3] },
+  { apiKey := 15, isRequest := false, lo := 0, hi := 5, flexFrom := some 5, fields := [
+      f "ThrottleTimeMs" .int32 1,
+      f "Groups" (arr [f "ErrorCode" .int16 0, f "GroupId" .string 0, f "GroupState" .string 0,
+        f "ProtocolType" .string 0, f "ProtocolData" .string 0,
+        f "Members" (arr [f "MemberId" .string 0, fn "GroupInstanceId" .string 4 4, f "ClientId" .string 0,
+          f "ClientHost" .string 0, f "MemberMetadata" .bytes 0, f "MemberAssignment" .bytes 0]) 0,
+        f "AuthorizedOperations" .int32 3]) 0] },
+  -- AddPartitionsToTxn (24) v0–v3
+  { apiKey := 24, isRequest := true, lo := 0, hi := 3, flexFrom := some 3, fields := [
+      f "TransactionalId" .string 0, f "ProducerId" .int64 0, f "ProducerEpoch" .int16 0,
+      f "Topics" (arr [f "Name" .string 0, f "Partitions" (.array .int32) 0]) 0] },
+  { apiKey := 24, isRequest := false, lo := 0, hi := 3, flexFrom := some 3, fields := [
+      f "ThrottleTimeMs" .int32 0,
+      f "Results" (arr [f "Name" .string 0,
+        f "Results" (arr [f "PartitionIndex" .int32 0, f "ErrorCode" .int16 0]) 0]) 0] },
+  -- AddOffsetsToTxn (25) v0–v3
+  { apiKey := 25, isRequest := true, lo := 0, hi := 3, flexFrom := some 3, fields := [
+      f "TransactionalId" .string 0, f "ProducerId" .int64 0, f "ProducerEpoch" .int16 0, f "GroupId" .string 0] },
+  { apiKey := 25, isRequest := false, lo := 0, hi := 3, flexFrom := some 3, fields := [
+      f "ThrottleTimeMs" .int32 0, f "ErrorCode" .int16 0] },
+  -- EndTxn (26) v0–v3
+  { apiKey := 26, isRequest := true, lo := 0, hi := 3, flexFrom := some 3, fields := [
+      f "TransactionalId" .string 0, f "ProducerId" .int64 0, f "ProducerEpoch" .int16 0, f "Committed" .bool 0] },
+  { apiKey := 26, isRequest := false, lo := 0, hi := 3, flexFrom := some 3, fields := [
+      f "ThrottleTimeMs" .int32 0, f "ErrorCode" .int16 0] },
+  -- TxnOffsetCommit (28) v0–v3
+  { apiKey := 28, isRequest := true, lo := 0, hi := 3, flexFrom := some 3, fields := [
+      f "TransactionalId" .string 0, f "GroupId" .string 0, f "ProducerId" .int64 0, f "ProducerEpoch" .int16 0,
+      f "GenerationId" .int32 3, f "MemberId" .string 3, fn "GroupInstanceId" .string 3 3,
+      f "Topics" (arr [f "Name" .string 0,
+        f "Partitions" (arr [f "PartitionIndex" .int32 0, f "CommittedOffset" .int64 0,
+          -- Kafka: nullableVersions 0+; the tree marks it nullable only in v3 (an empty string is written as
+          -- length 0 instead of null in v0–v2: both denote "no metadata") — reference follows the tree (audit note)
+          f "CommittedLeaderEpoch" .int32 2, fu "CommittedMetadata" .string 0]) 0]) 0] },
+  { apiKey := 28, isRequest := false, lo := 0, hi := 3, flexFrom := some 3, fields := [
+      f "ThrottleTimeMs" .int32 0,
+      f "Topics" (arr [f "Name" .string 0,
+        f "Partitions" (arr [f "PartitionIndex" .int32 0, f "ErrorCode" .int16 0]) 0]) 0] },
   -- SaslAuthenticate (36) v0–v1
   { apiKey := 36, isRequest := true, lo := 0, hi := 1, flexFrom := none, fields := [f "AuthBytes" .bytes 0] },
   { apiKey := 36, isRequest := false, lo := 0, hi := 1, flexFrom := none, fields := [
@@ -232,15 +311,157 @@ def golden : List KMsg := [
   { apiKey := 18, isRequest := false, lo := 0, hi := 2, flexFrom := none, fields := [
       f "ErrorCode" .int16 0,
       f "ApiKeys" (arr [f "ApiKey" .int16 0, f "MinVersion" .int16 0, f "MaxVersion" .int16 0]) 0,
-      f "ThrottleTimeMs" .int32 1] }
+      f "ThrottleTimeMs" .int32 1] },
+  -- DescribeConfigs (32) v0–v3
+  { apiKey := 32, isRequest := true, lo := 0, hi := 3, flexFrom := none, fields := [
+      f "Resources" (arr [f "ResourceType" .int8 0, f "ResourceName" .string 0,
+        -- Kafka: nullable array of (non-null) strings; in the tree the element strings inherit `nullable` like Metadata's Topics
+        fu "ConfigurationKeys" (.array .string) 0]) 0,
+      f "IncludeSynonyms" .bool 1, f "IncludeDocumentation" .bool 3] },
+  { apiKey := 32, isRequest := false, lo := 0, hi := 3, flexFrom := none, fields := [
+      f "ThrottleTimeMs" .int32 0,
+      f "Results" (arr [f "ErrorCode" .int16 0, fn "ErrorMessage" .string 0 0, f "ResourceType" .int8 0, f "ResourceName" .string 0,
+        f "Configs" (arr [f "Name" .string 0, fn "Value" .string 0 0, f "ReadOnly" .bool 0, fr "IsDefault" .bool 0 0,
+          f "ConfigSource" .int8 1, f "IsSensitive" .bool 0,
+          f "Synonyms" (arr [f "Name" .string 1, fn "Value" .string 1 1, f "Source" .int8 1]) 1,
+          f "ConfigType" .int8 3, fn "Documentation" .string 3 3]) 0]) 0] },
+  -- AlterConfigs (33) v0–v1
+  { apiKey := 33, isRequest := true, lo := 0, hi := 1, flexFrom := none, fields := [
+      f "Resources" (arr [f "ResourceType" .int8 0, f "ResourceName" .string 0,
+        f "Configs" (arr [f "Name" .string 0, fn "Value" .string 0 0]) 0]) 0,
+      f "ValidateOnly" .bool 0] },
+  { apiKey := 33, isRequest := false, lo := 0, hi := 1, flexFrom := none, fields := [
+      f "ThrottleTimeMs" .int32 0,
+      f "Responses" (arr [f "ErrorCode" .int16 0, fn "ErrorMessage" .string 0 0, f "ResourceType" .int8 0,
+        f "ResourceName" .string 0]) 0] },
+  -- CreatePartitions (37) v0–v1
+  { apiKey := 37, isRequest := true, lo := 0, hi := 1, flexFrom := none, fields := [
+      f "Topics" (arr [f "Name" .string 0, f "Count" .int32 0,
+        fn "Assignments" (arr [f "BrokerIds" (.array .int32) 0]) 0 0]) 0,
+      f "TimeoutMs" .int32 0, f "ValidateOnly" .bool 0] },
+  { apiKey := 37, isRequest := false, lo := 0, hi := 1, flexFrom := none, fields := [
+      f "ThrottleTimeMs" .int32 0,
+      f "Results" (arr [f "Name" .string 0, f "ErrorCode" .int16 0, fn "ErrorMessage" .string 0 0]) 0] },
+  -- DeleteGroups (42) v0–v2 (flexible from v2)
+  { apiKey := 42, isRequest := true, lo := 0, hi := 2, flexFrom := some 2, fields := [f "GroupsNames" (.array .string) 0] },
+  { apiKey := 42, isRequest := false, lo := 0, hi := 2, flexFrom := some 2, fields := [
+      f "ThrottleTimeMs" .int32 0, f "Results" (arr [f "GroupId" .string 0, f "ErrorCode" .int16 0]) 0] },
+  -- ElectLeaders (43) v0–v1
+  { apiKey := 43, isRequest := true, lo := 0, hi := 1, flexFrom := none, fields := [
+      f "ElectionType" .int8 1,
+      -- Kafka: nullableVersions 0+ (null = every partition); the tree never writes null — reference follows the tree (audit note)
+      fu "TopicPartitions" (arr [f "Topic" .string 0, f "Partitions" (.array .int32) 0]) 0,
+      f "TimeoutMs" .int32 0] },
+  { apiKey := 43, isRequest := false, lo := 0, hi := 1, flexFrom := none, fields := [
+      f "ThrottleTimeMs" .int32 0, f "ErrorCode" .int16 1,
+      f "ReplicaElectionResults" (arr [f "Topic" .string 0,
+        f "PartitionResult" (arr [f "PartitionId" .int32 0, f "ErrorCode" .int16 0, fn "ErrorMessage" .string 0 0]) 0]) 0] },
+  -- IncrementalAlterConfigs (44) v0
+  { apiKey := 44, isRequest := true, lo := 0, hi := 0, flexFrom := none, fields := [
+      f "Resources" (arr [f "ResourceType" .int8 0, f "ResourceName" .string 0,
+        f "Configs" (arr [f "Name" .string 0, f "ConfigOperation" .int8 0, fn "Value" .string 0 0]) 0]) 0,
+      f "ValidateOnly" .bool 0] },
+  { apiKey := 44, isRequest := false, lo := 0, hi := 0, flexFrom := none, fields := [
+      f "ThrottleTimeMs" .int32 0,
+      f "Responses" (arr [f "ErrorCode" .int16 0, fn "ErrorMessage" .string 0 0, f "ResourceType" .int8 0,
+        f "ResourceName" .string 0]) 0] },
+  -- OffsetDelete (47) v0
+  { apiKey := 47, isRequest := true, lo := 0, hi := 0, flexFrom := none, fields := [
+      f "GroupId" .string 0,
+      f "Topics" (arr [f "Name" .string 0, f "Partitions" (arr [f "PartitionIndex" .int32 0]) 0]) 0] },
+  { apiKey := 47, isRequest := false, lo := 0, hi := 0, flexFrom := none, fields := [
+      f "ErrorCode" .int16 0, f "ThrottleTimeMs" .int32 0,
+      f "Topics" (arr [f "Name" .string 0,
+        f "Partitions" (arr [f "PartitionIndex" .int32 0, f "ErrorCode" .int16 0]) 0]) 0] },
+  -- DescribeAcls (29) v0–v3 (flexible from v2)
+  { apiKey := 29, isRequest := true, lo := 0, hi := 3, flexFrom := some 2, fields := [
+      f "ResourceTypeFilter" .int8 0, fn "ResourceNameFilter" .string 0 0, f "PatternTypeFilter" .int8 1,
+      fn "PrincipalFilter" .string 0 0, fn "HostFilter" .string 0 0, f "Operation" .int8 0, f "PermissionType" .int8 0] },
+  { apiKey := 29, isRequest := false, lo := 0, hi := 3, flexFrom := some 2, fields := [
+      f "ThrottleTimeMs" .int32 0, f "ErrorCode" .int16 0, fn "ErrorMessage" .string 0 0,
+      f "Resources" (arr [f "ResourceType" .int8 0, f "ResourceName" .string 0, f "PatternType" .int8 1,
+        f "Acls" (arr [f "Principal" .string 0, f "Host" .string 0, f "Operation" .int8 0, f "PermissionType" .int8 0]) 0]) 0] },
+  -- CreateAcls (30) v0–v3 (flexible from v2)
+  { apiKey := 30, isRequest := true, lo := 0, hi := 3, flexFrom := some 2, fields := [
+      f "Creations" (arr [f "ResourceType" .int8 0, f "ResourceName" .string 0, f "ResourcePatternType" .int8 1,
+        f "Principal" .string 0, f "Host" .string 0, f "Operation" .int8 0, f "PermissionType" .int8 0]) 0] },
+  { apiKey := 30, isRequest := false, lo := 0, hi := 3, flexFrom := some 2, fields := [
+      f "ThrottleTimeMs" .int32 0, f "Results" (arr [f "ErrorCode" .int16 0, fn "ErrorMessage" .string 0 0]) 0] },
+  -- DeleteAcls (31) v0–v3 (flexible from v2)
+  { apiKey := 31, isRequest := true, lo := 0, hi := 3, flexFrom := some 2, fields := [
+      f "Filters" (arr [f "ResourceTypeFilter" .int8 0, fn "ResourceNameFilter" .string 0 0, f "PatternTypeFilter" .int8 1,
+        fn "PrincipalFilter" .string 0 0, fn "HostFilter" .string 0 0, f "Operation" .int8 0, f "PermissionType" .int8 0]) 0] },
+  { apiKey := 31, isRequest := false, lo := 0, hi := 3, flexFrom := some 2, fields := [
+      f "ThrottleTimeMs" .int32 0,
+      f "FilterResults" (arr [f "ErrorCode" .int16 0, fn "ErrorMessage" .string 0 0,
+        f "MatchingAcls" (arr [f "ErrorCode" .int16 0, fn "ErrorMessage" .string 0 0, f "ResourceType" .int8 0,
+          f "ResourceName" .string 0, f "PatternType" .int8 1, f "Principal" .string 0, f "Host" .string 0,
+          f "Operation" .int8 0, f "PermissionType" .int8 0]) 0]) 0] },
+  -- AlterPartitionReassignments (45) v0 (flexible)
+  { apiKey := 45, isRequest := true, lo := 0, hi := 0, flexFrom := some 0, fields := [
+      f "TimeoutMs" .int32 0,
+      f "Topics" (arr [f "Name" .string 0,
+        f "Partitions" (arr [f "PartitionIndex" .int32 0, fn "Replicas" (.array .int32) 0 0]) 0]) 0] },
+  { apiKey := 45, isRequest := false, lo := 0, hi := 0, flexFrom := some 0, fields := [
+      f "ThrottleTimeMs" .int32 0, f "ErrorCode" .int16 0, fn "ErrorMessage" .string 0 0,
+      f "Responses" (arr [f "Name" .string 0,
+        f "Partitions" (arr [f "PartitionIndex" .int32 0, f "ErrorCode" .int16 0, fn "ErrorMessage" .string 0 0]) 0]) 0] },
+  -- ListPartitionReassignments (46) v0 (flexible)
+  { apiKey := 46, isRequest := true, lo := 0, hi := 0, flexFrom := some 0, fields := [
+      f "TimeoutMs" .int32 0,
+      fn "Topics" (arr [f "Name" .string 0, f "PartitionIndexes" (.array .int32) 0]) 0 0] },
+  { apiKey := 46, isRequest := false, lo := 0, hi := 0, flexFrom := some 0, fields := [
+      f "ThrottleTimeMs" .int32 0, f "ErrorCode" .int16 0, fn "ErrorMessage" .string 0 0,
+      f "Topics" (arr [f "Name" .string 0,
+        f "Partitions" (arr [f "PartitionIndex" .int32 0, f "Replicas" (.array .int32) 0,
+          f "AddingReplicas" (.array .int32) 0, f "RemovingReplicas" (.array .int32) 0]) 0]) 0] },
+  -- DescribeClientQuotas (48) v0–v1 (flexible from v1)
+  { apiKey := 48, isRequest := true, lo := 0, hi := 1, flexFrom := some 1, fields := [
+      f "Components" (arr [f "EntityType" .string 0, f "MatchType" .int8 0, fn "Match" .string 0 0]) 0,
+      f "Strict" .bool 0] },
+  { apiKey := 48, isRequest := false, lo := 0, hi := 1, flexFrom := some 1, fields := [
+      f "ThrottleTimeMs" .int32 0, f "ErrorCode" .int16 0, fn "ErrorMessage" .string 0 0,
+      -- Kafka: nullableVersions 0+ (null when the request fails); the tree never writes null (audit note)
+      fu "Entries" (arr [f "Entity" (arr [f "EntityType" .string 0, fn "EntityName" .string 0 0]) 0,
+        f "Values" (arr [f "Key" .string 0, f "Value" .float64 0]) 0]) 0] },
+  -- AlterClientQuotas (49) v0–v1 (flexible from v1)
+  { apiKey := 49, isRequest := true, lo := 0, hi := 1, flexFrom := some 1, fields := [
+      f "Entries" (arr [f "Entity" (arr [f "EntityType" .string 0, fn "EntityName" .string 0 0]) 0,
+        f "Ops" (arr [f "Key" .string 0, f "Value" .float64 0, f "Remove" .bool 0]) 0]) 0,
+      f "ValidateOnly" .bool 0] },
+  { apiKey := 49, isRequest := false, lo := 0, hi := 1, flexFrom := some 1, fields := [
+      f "ThrottleTimeMs" .int32 0,
+      f "Entries" (arr [f "ErrorCode" .int16 0, fn "ErrorMessage" .string 0 0,
+        f "Entity" (arr [f "EntityType" .string 0, fn "EntityName" .string 0 0]) 0]) 0] },
+  -- DescribeUserScramCredentials (50) v0 (flexible)
+  { apiKey := 50, isRequest := true, lo := 0, hi := 0, flexFrom := some 0, fields := [
+      -- Kafka: nullableVersions 0+ (null = all users); the tree never writes null (audit note)
+      fu "Users" (arr [f "Name" .string 0]) 0] },
+  { apiKey := 50, isRequest := false, lo := 0, hi := 0, flexFrom := some 0, fields := [
+      f "ThrottleTimeMs" .int32 0, f "ErrorCode" .int16 0, fn "ErrorMessage" .string 0 0,
+      f "Results" (arr [f "User" .string 0, f "ErrorCode" .int16 0, fn "ErrorMessage" .string 0 0,
+        f "CredentialInfos" (arr [f "Mechanism" .int8 0, f "Iterations" .int32 0]) 0]) 0] },
+  -- AlterUserScramCredentials (51) v0 (flexible)
+  { apiKey := 51, isRequest := true, lo := 0, hi := 0, flexFrom := some 0, fields := [
+      f "Deletions" (arr [f "Name" .string 0, f "Mechanism" .int8 0]) 0,
+      f "Upsertions" (arr [f "Name" .string 0, f "Mechanism" .int8 0, f "Iterations" .int32 0, f "Salt" .bytes 0,
+        f "SaltedPassword" .bytes 0]) 0] },
+  { apiKey := 51, isRequest := false, lo := 0, hi := 0, flexFrom := some 0, fields := [
+      f "ThrottleTimeMs" .int32 0,
+      f "Results" (arr [f "User" .string 0, f "ErrorCode" .int16 0, fn "ErrorMessage" .string 0 0]) 0] }
 ]
 
 def auditNotes : List String := [
+  "TxnOffsetCommit request CommittedMetadata: nullable 0+ in Kafka, the tree marks it nullable only in v3 (v0-v2 write \"\" as an empty string, not null) — reference follows the tree",
   "Metadata request Topics: nullable from v1 in Kafka (v0 uses the empty array for 'all topics'); the tree declares []string nullable from v0 and the element strings inherit `nullable` (an empty topic name is written as null) — reference follows the tree",
   "Fetch response AbortedTransactions: nullable (4+) in Kafka, never null in the tree — reference follows the tree",
   "OffsetFetch request Topics: nullable from v2 in Kafka, tree marks it nullable from v0 — reference follows the tree",
   "JoinGroup response v7 ProtocolType/ProtocolName, SyncGroup v5 ProtocolType/ProtocolName: nullable in Kafka — reference follows the tree's flag",
   "request header client_id: NULLABLE_STRING in Kafka; the library always writes a non-null string in non-flexible versions (Kafka 0.10 compatibility) — accepted as canonical",
+  "DescribeConfigs request ConfigurationKeys: []string nullable in the tree, the element strings inherit the flag (an empty config name is written as a null string, which Kafka's schema does not allow) — reference follows the tree",
+  "DescribeClientQuotas response Entries, DescribeUserScramCredentials request Users: nullable 0+ in Kafka, never null in the tree — reference follows the tree",
+  "DescribeAcls request: Kafka's message is FLAT; the tree nests the seven filter fields in a struct `Filter ACLFilter` — same bytes in v0-v1, but in the flexible versions v2-v3 the nested struct brings its own (empty) tagged-field buffer: one extra 00 byte before the request's own tag buffer (finding C04-D30)",
+  "ElectLeaders request TopicPartitions: nullable 0+ in Kafka (null = all partitions), never null in the tree — reference follows the tree",
   "Go has no null string: the empty string stands for null in nullable fields (library convention, part of the reference)"
 ]
 
